@@ -490,7 +490,7 @@ func WireEdgeHistories(rng *rand.Rand) [][]string {
 	hs = append(hs, JoinOps([][]string{Dg(ip, port, nil), Dg(ip, port, plain.Payload(rng)), Dg(ip, port, nil), Dg(ip, port, Keepalive(id)),
 		{"adv", "256000"}, Dg(ip, port, nil), Dg(ip, port, plain.Payload(rng))}))
 	// the server's lock is held by another writer for a moment when the heartbeat arrives: it waits and is then handled
-	for _, ms := range []int{120, 150, 230} {
+	for _, ms := range []int{200, 230, 300} {
 		r := RandomReport(rng, id, "10480", "10481", 0)
 		hs = append(hs, JoinOps([][]string{Dg(ip, port, plain.Payload(rng)), {"hold", ip + ":10480", fmt.Sprint(ms)}, Dg(ip, port, r.Payload(rng)),
 			{"hold", ip + ":10480", fmt.Sprint(ms)}, Dg(ip, port, Keepalive(id))}))
